@@ -752,6 +752,60 @@ theorem claim_table (id entries meas cons) : Claim (.table id entries meas cons)
             rw [hw3] at hv'; cases hv'; rfl
           · cases htags
 
+/-! ### time reversal (integral only) -/
+
+theorem plIntegral_map_swap (l : PL) :
+    plIntegral (l.map (fun s => { s with v0 := s.v1, v1 := s.v0 })) = plIntegral l := by
+  induction l with
+  | nil => rfl
+  | cons s r ih => simp only [List.map_cons, plIntegral, ih]; grind
+
+theorem plIntegral_map_amb (l : PL) (b : Bool) :
+    plIntegral (l.map (fun s => { s with amb := b })) = plIntegral l := by
+  induction l with
+  | nil => rfl
+  | cons s r ih => simp only [List.map_cons, plIntegral, ih]
+
+theorem plIntegral_reverse (l : PL) : plIntegral l.reverse = plIntegral l := by
+  induction l with
+  | nil => rfl
+  | cons s r ih =>
+    rw [List.reverse_cons, plIntegral_append, ih]
+    simp [plIntegral]; grind
+
+theorem plIntegral_reversed (p : PL) : plIntegral p.reversed = plIntegral p := by
+  unfold PL.reversed
+  have h := plIntegral_map_swap p.reverse
+  rw [plIntegral_reverse] at h
+  generalize p.reverse.map (fun s => { s with v0 := s.v1, v1 := s.v0 }) = q at h
+  cases q with
+  | nil => simpa using h
+  | cons s rest =>
+    simp only
+    rw [← h]
+    simp only [plIntegral, plIntegral_map_amb]
+
+theorem claim_timeReversal (id body) (ih : Claim body) : Claim (.timeReversal id body) := by
+  intro σ mm cm P c o hden hreg hinj hc hcm
+  rw [denote] at hden
+  simp only [bind_ok_iff, pure_ok_iff] at hden
+  obtain ⟨b, hb, rfl⟩ := hden
+  rw [regular] at hreg
+  simp only [PT.definedChannels] at hinj hc
+  constructor
+  · intro r hr
+    rw [integralOf] at hr
+    have := (ih σ mm cm b c o hb hreg hinj hc hcm).1 r hr
+    rw [this]
+    simp only [pulseVal]
+    rw [lookup_map_snd b.chans (fun pl => PL.reversed pl) o]
+    cases b.chans.lookup o with
+    | none => rfl
+    | some pl => simp [plIntegral_reversed]
+  · intro e _ v v' _ hv'
+    rw [endOf] at hv'
+    cases hv'
+
 /-! ### the induction -/
 
 mutual
@@ -775,8 +829,11 @@ theorem claim : ∀ (pt : PT), supported pt = true → Claim pt
       simp only [supported, Bool.and_eq_true, Bool.not_eq_true'] at h
       exact claim_mapping id body pm mm' cm' cons (claim body h.1.1.1) h.1.1.2 h.1.2 h.2
   | .table id entries meas cons, _ => claim_table id entries meas cons
-  | .point .., h | .parallel .., h | .atomicMulti .., h | .arith .., h | .arithAtomic .., h
-  | .timeReversal .., h => by simp [supported] at h
+  | .timeReversal id body, h => by
+      simp only [supported] at h
+      exact claim_timeReversal id body (claim body h)
+  | .point .., h | .parallel .., h | .atomicMulti .., h | .arith .., h | .arithAtomic .., h => by
+      simp [supported] at h
 theorem claimAll : ∀ (subs : List PT), supportedAll subs = true → ∀ p ∈ subs, Claim p
   | [], _ => fun p hp => nomatch hp
   | q :: qs, h => by
